@@ -25,26 +25,24 @@ EXPLANATION = (
 FIELDS = ("reaction", "solved", "solved_by", "confidence", "rules", "issue")
 
 
-def _norm(v):
-    if v is None or pc.is_nan(v):
-        return None
+_ABSENT = "<absent>"
+
+
+def _field(row, k):
+    """value of an output field; an absent key and None are the same thing to a caller using .get(), NaN is not"""
+    v = row.get(k)
+    if v is None:
+        return _ABSENT
+    if pc.is_nan(v):
+        return "<nan>"
     return v
-
-
-def _key(row):
-    return tuple((k, _norm(row.get(k))) for k in FIELDS)
 
 
 def _same(ra, rb):
     for k in FIELDS:
-        va = _norm(ra.get(k))
-        vb = _norm(rb.get(k))
-        if va is None and vb is None:
+        va, vb = _field(ra, k), _field(rb, k)
+        if k == "issue" and va in (_ABSENT, "") and vb in (_ABSENT, ""):
             continue
-        if va is None or vb is None:
-            if k == "issue" and (va in (None, "") and vb in (None, "")):
-                continue
-            return False
         if va != vb:
             return False
     return True
